@@ -607,7 +607,6 @@ def gen_keys(rng, root="/data"):
 
 
 def corr_names(chk, drv, rng, N):
-    from qats import TsDB
     cwd = os.getcwd()
     lines, meta = [], []
     for _ in range(N):
@@ -616,7 +615,6 @@ def corr_names(chk, drv, rng, N):
         lines.append("ex.names cwd=%s base=%d %s" % (hx(cwd), base, " ".join(hx(k) for k in keys)))
         meta.append((keys, base))
     outs = drv.run(lines)
-    db = TsDB()
     for (keys, base), out in zip(meta, outs):
         inp = dict(kind="names", keys=keys, basename=base, cwd=cwd)
         chk.count("names")
@@ -632,7 +630,6 @@ def corr_names(chk, drv, rng, N):
 
 
 def corr_export(chk, drv, rng, N, root):
-    from qats import TsDB, TimeSeries
     cwd = os.getcwd()
     lines, meta = [], []
     for ci in range(N):
@@ -651,7 +648,7 @@ def corr_export(chk, drv, rng, N, root):
             allk = [os.path.join("/data", f, n) for f in files for n in nm]
             nser = min(nser, len(allk))
             keys = rng.sample(allk, nser)
-            times = times[:nser]
+            times, dtgs = times[:nser], dtgs[:nser]
         xs = [[Fraction(rng.randint(-32, 32), rng.choice([1, 2, 4])) for _ in t] for t in times]
         twin = gen_twin(rng, times) if rng.random() < 0.4 else None
         res = gen_resample(rng, times, twin is not None) if rng.random() < 0.35 else None
@@ -692,7 +689,6 @@ def corr_codec(chk, drv, rng, N, root):
     from qats.io.direct_access import write_ts_data, read_ts_names, read_ts_data
     from qats.io.other import write_dat_data, read_dat_names
     from qats.io.sima_h5 import write_data as write_h5, read_names as read_h5_names, read_data as read_h5_data
-    import h5py
     alpha = ["a", "b", "Time", "time", "Timer", "END", "end", " lead", "trail ", "**c", "'q", "x y", "T [kN]", "*a", "a'b", "t\tb", "En d",
              "e**", "tIME", "m/s", "_"]
     lines, meta = [], []
@@ -1022,6 +1018,26 @@ def eval_e2e(case, root):
         if ext == ".ts":
             with open(os.path.splitext(target)[0] + ".key", "w") as f:
                 f.write("sentinel\nEND\n")
+    # what should be written: the in-memory retrievals if their time arrays agree; with force_common_time (and no resampling
+    # requested) otherwise the retrievals resampled to the common time array
+    exp0, forced = exp, False
+    if exp is not None:
+        ts_ = [v[0] for v in exp.values()]
+        same = all(a.shape == ts_[0].shape and np.allclose(a, ts_[0], rtol=1e-9, atol=1e-12) for a in ts_)
+    else:
+        same = False
+    if not same and case["force"] and "resample" not in kw:
+        try:
+            ct = db.create_common_time(names=select, twin=kw.get("twin"))
+            kw2 = dict(kw)
+            kw2["resample"] = ct
+            expf = db.getda(names=select, fullkey=True, **kw2)
+            exp = OrderedDict((k, (np.asarray(v[0], dtype=float), np.asarray(v[1], dtype=float))) for k, v in expf.items())
+            forced, same = True, True
+        except Exception:
+            pass
+    nproc = None if exp is None else min(len(v[0]) for v in exp.values())
+    xtra = dict(processed_samples=nproc)
     before = snapshot(tdir)
     try:
         quiet(db.export, target, names=select, exist_ok=case["exist_ok"], basename=case["basename"], force_common_time=case["force"], **kw)
@@ -1030,8 +1046,6 @@ def eval_e2e(case, root):
         raised = e
     after = snapshot(tdir)
     info["written_names"] = exp_names
-    nproc = None if exp is None else min(len(v[0]) for v in exp.values())
-    xtra = dict(processed_samples=nproc)
     if raised is not None:
         info["outcome"] = "raise:" + type(raised).__name__
         if after != before:
@@ -1040,38 +1054,19 @@ def eval_e2e(case, root):
                           dict(raised="%s: %s" % (type(raised).__name__, str(raised)[:120]), changed=changed), xtra))
         # exports that must not be refused: identical stored time arrays, valid options, distinct names, overwriting allowed
         must = ident and exp_err is None and (case["exist_ok"] or not case["preexisting"]) and ext in EXTS + [".pickle"] and \
-            (len(set(exp_names)) == len(exp_names)) and all(len(v[0]) >= 2 for v in exp.values())
+            (len(set(exp_names)) == len(exp_names)) and all(len(v[0]) >= 2 for v in exp0.values())
         if must:
             fails.append(("series with identical time arrays and valid options are exported", "file written",
-                          "%s: %s" % (type(raised).__name__, str(raised)[:160]), {}))
+                          "%s: %s" % (type(raised).__name__, str(raised)[:160]), xtra))
         return fails, info
     info["outcome"] = "written"
     if case["preexisting"] and not case["exist_ok"]:
-        fails.append(("an existing file is not overwritten when exist_ok=False", "FileExistsError", "file written", {}))
+        fails.append(("an existing file is not overwritten when exist_ok=False", "FileExistsError", "file written", xtra))
         return fails, info
-    # what should have been written
-    forced = False
-    if exp is not None:
-        ts_ = [v[0] for v in exp.values()]
-        same = all(a.shape == ts_[0].shape and np.allclose(a, ts_[0], rtol=1e-9, atol=1e-12) for a in ts_)
-    else:
-        same = False
-    if not same and case["force"] and "resample" not in kw:
-        # asked to resample to the common window
-        try:
-            ct = db.create_common_time(names=select, twin=kw.get("twin"))
-            kw2 = dict(kw)
-            kw2["resample"] = ct
-            exp = db.getda(names=select, fullkey=True, **kw2)
-            exp = OrderedDict((k, (np.asarray(v[0], dtype=float), np.asarray(v[1], dtype=float))) for k, v in exp.items())
-            forced, same = True, True
-            xtra["processed_samples"] = min(len(v[0]) for v in exp.values())
-        except Exception:
-            exp = None
     if exp is None or not same:
         fails.append(("series whose processed time arrays differ are never written side by side", "export raises",
                       dict(written=True, processed_time_arrays=None if exp is None else [v[0].tolist()[:12] for v in exp.values()],
-                           retrieval_error=None if exp_err is None else repr(exp_err)[:160]), {}))
+                           retrieval_error=None if exp_err is None else repr(exp_err)[:160]), xtra))
         return fails, info
     info["forced"] = forced
     # reload
@@ -1089,7 +1084,7 @@ def eval_e2e(case, root):
         want = list(exp_names)
         okn = (sorted(got_names) == sorted(want)) if ext == ".h5" else (got_names == want)
         if not okn:
-            fails.append(("reloaded names equal the exported names", want, got_names, {}))
+            fails.append(("reloaded names equal the exported names", want, got_names, xtra))
             return fails, info
         order = [got_names.index(n) for n in want]
     else:
@@ -1099,7 +1094,7 @@ def eval_e2e(case, root):
         if ext == ".h5":
             okn = len(got_names) == len(keys) and len(set(got_names)) == len(got_names)
         if not okn:
-            fails.append(("with basename=False every series is written under a distinct shortened key ending in its name", exp_names, got_names, {}))
+            fails.append(("with basename=False every series is written under a distinct shortened key ending in its name", exp_names, got_names, xtra))
             return fails, info
         if ext == ".h5":
             # match by suffix and data
@@ -1108,7 +1103,7 @@ def eval_e2e(case, root):
                 cands = [i for i, g in enumerate(got_names) if (g == n or g.endswith("_" + n)) and i not in order and len(got[i][1]) == len(xe)
                          and np.array_equal(got[i][1], xe)]
                 if not cands:
-                    fails.append(("with basename=False every series is written under a distinct shortened key ending in its name", exp_names, got_names, {}))
+                    fails.append(("with basename=False every series is written under a distinct shortened key ending in its name", exp_names, got_names, xtra))
                     return fails, info
                 order.append(cands[0])
         else:
@@ -1135,7 +1130,7 @@ def eval_e2e(case, root):
         T = got[0][0]
         tol = 1e-6 * max(1.0, abs(ce))
         if len(T) and (T[0] < cs - tol or T[-1] > ce + tol):
-            fails.append(("forced common time lies inside the common window", [float(cs), float(ce)], [float(T[0]), float(T[-1])], {}))
+            fails.append(("forced common time lies inside the common window", [float(cs), float(ce)], [float(T[0]), float(T[-1])], xtra))
         if not any(x in case["kw"] for x in ("filterargs", "taperfrac", "window_len")):
             for k, i, n in zip(keys, order, exp_names):
                 ref = np.interp(exp[k][0], sel[k].t, sel[k].x)
@@ -1145,7 +1140,7 @@ def eval_e2e(case, root):
                 sc = max(1.0, float(np.max(np.abs(sel[k].x))))
                 if not np.all(np.abs(got[i][1] - ref) <= 1e-9 * sc + ax + max(rx, 1e-12) * np.abs(ref) + 2e-7 * sc * (ext in (".ts", ".dat"))):
                     fails.append(("forced resampling writes the linear interpolation of each series on the common time", "np.interp",
-                                  "differs", dict(series=n)))
+                                  "differs", dict(series=n, **xtra)))
     return fails, info
 
 
@@ -1191,7 +1186,7 @@ def run_e2e(chk, case):
     try:
         try:
             fails, info = eval_e2e(case, root)
-        except KeyError as e:
+        except KeyError:
             # building the database itself can refuse (same key twice in memory)
             chk.dist("e2e:build-refused")
             return
